@@ -480,6 +480,20 @@ func (h *w1Hist) completion(p *w1PubSess) int64 {
 		}
 		return c
 	}
+	// the path closes a publisher while it handles the add request of a rival, and answers that
+	// request (accepted or refused) only after the removal: when exactly one add request on the
+	// path is outstanding at the close, its response marks the completion
+	var trigger *w1PubSess
+	ntrig := 0
+	for _, q := range h.pubs {
+		if q != p && q.path == p.path && q.addCall > 0 && q.addCall < p.closeSeq && q.addRet > p.closeSeq {
+			trigger = q
+			ntrig++
+		}
+	}
+	if ntrig == 1 {
+		return trigger.addRet
+	}
 	for _, q := range h.pubs {
 		if q != p && q.ok && q.path == p.path && q.addRet > p.closeSeq && q.addRet < c {
 			c = q.addRet
